@@ -296,7 +296,7 @@ class Sched:
         elif kind == "upload_link":
             if cache_was_link:
                 if outcome != "ValueError":
-                    self.violate("link-uploaded", "a link was uploaded to its own destination", outcome=outcome)
+                    self.violate("link-uploaded", "a link was accepted for upload in link mode", outcome=outcome)
             elif outcome not in ("ok", "FileNotFoundError"):
                 self.violate("unexpected-error", f"upload_link raised {outcome}", error=error)
 
